@@ -4,6 +4,7 @@ import (
 	"fmt"
 	"sort"
 	"testing"
+	"unicode/utf8"
 
 	"github.com/spikeekips/mitum/util"
 	"github.com/spikeekips/mitum/util/fixedtree"
@@ -56,18 +57,24 @@ const keyAlphabet = "abcdefghijklmnopqrstuvwxyzABCDEFGHIJKLMNOPQRSTUVWXYZ0123456
 // ---------------------------------------------------------------- one tree
 
 type treeCase struct {
-	Size     int    `json:"size"`
-	Via      string `json:"via"`
-	TreeNo   int    `json:"tree_no"`
-	Keys     int    `json:"keys_checked,omitempty"`
-	FirstKey string `json:"first_key,omitempty"`
-	Root     string `json:"root,omitempty"`
+	Size      int    `json:"size"`
+	Via       string `json:"via"`
+	Profile   string `json:"key_profile"`
+	TreeNo    int    `json:"tree_no"`
+	Keys      int    `json:"keys_checked,omitempty"`
+	FirstKey  string `json:"first_key,omitempty"`
+	MinKeyLen int    `json:"min_key_len"`
+	MaxKeyLen int    `json:"max_key_len"`
+	Root      string `json:"root,omitempty"`
 }
 
 type witness struct {
 	Size     int      `json:"size"`
 	TreeNo   int      `json:"tree_no"`
-	Keys     []string `json:"keys,omitempty"` // all keys when the tree is small
+	Profile  string   `json:"key_profile,omitempty"`
+	KeyLen   int      `json:"key_len,omitempty"`
+	Site     string   `json:"key_change_site,omitempty"` // site@offset/keylen of a key change
+	Keys     []string `json:"keys,omitempty"`            // all keys when the tree is small
 	KeyIndex int      `json:"key_index"`
 	Key      string   `json:"key,omitempty"`
 	Mutation string   `json:"mutation,omitempty"`
@@ -87,7 +94,7 @@ func nodeStrings(ns []fixedtree.Node) []string {
 		case n.IsEmpty():
 			out[i] = "<empty>"
 		default:
-			out[i] = fmt.Sprintf("%v %s", n.Hash(), n.Key())
+			out[i] = fmt.Sprintf("%v %s", n.Hash(), showKey(n.Key()))
 		}
 	}
 	return out
@@ -108,32 +115,34 @@ func flipHash(rng interface{ Intn(int) int }, h util.Hash) util.Hash {
 	return valuehash.L32(a)
 }
 
-func mutateKey(rng interface{ Intn(int) int }, key string, taken map[string]bool) string {
-	for try := 0; try < 16; try++ {
-		b := []byte(key)
-		p := rng.Intn(len(b))
-		c := keyAlphabet[rng.Intn(len(keyAlphabet))]
-		if c == b[p] {
-			continue
-		}
-		b[p] = c
-		if !taken[string(b)] {
-			return string(b)
-		}
-	}
-	return key + "~mutated"
-}
-
 type checker struct {
 	r *vlib.Run
 }
 
-func (c *checker) wit(keys []string, treeNo int) witness {
-	w := witness{Size: len(keys), TreeNo: treeNo}
+func (c *checker) wit(keys []string, treeNo int, prof string) witness {
+	w := witness{Size: len(keys), TreeNo: treeNo, Profile: prof}
 	if len(keys) <= 16 {
-		w.Keys = keys
+		w.Keys = showKeys(keys)
 	}
 	return w
+}
+
+// keySig: the signature of a failure about one key names the length class of
+// that key; maxSig names the length class of the longest key among the nodes
+// whose hashes commit to the changed field. The signatures of listed known
+// findings stay as they are listed.
+func (c *checker) keySig(base string, l int) string {
+	if c.r.IsKnown(base) {
+		return base
+	}
+	return base + ":" + lenBucket(l)
+}
+
+func (c *checker) maxSig(base string, l int) string {
+	if c.r.IsKnown(base) {
+		return base
+	}
+	return base + ":max" + lenBucket(l)
 }
 
 // proofAccepted: the proof is accepted as a proof of key under the trusted
@@ -176,17 +185,80 @@ func role(pos int, n fixedtree.Node, L int, key string, ancestors map[string]boo
 	return s
 }
 
-// checkTree runs the whole oracle on one key list. keyIdx: which keys get their
-// proof checked; proofMut: for which of those all (exhaustive=true) or nMut
-// sampled single mutations are tried; treeMut: which tree nodes are mutated.
-func (c *checker) checkTree(treeNo int, via string, keys []string, exhaustive bool, nKeys, nMut int) {
+// checkTree runs the whole oracle on one key list. exhaustive: every key's
+// proof, every proof position and every tree node; otherwise nKeys sampled keys
+// and nMut sampled mutations. allSites: every key change is tried at every site
+// of the key (first, 25%, 50%, 75%, last byte; append; truncate), otherwise the
+// sites rotate from one key change to the next.
+func (c *checker) checkTree(treeNo int, via, prof string, keys []string, exhaustive, allSites bool, nKeys, nMut int) {
 	r := c.r
 	n := len(keys)
 	rng := r.Rand(12, treeNo, n)
-	base := c.wit(keys, treeNo)
+	base := c.wit(keys, treeNo, prof)
+	tp := fmt.Sprintf("n=%d/kp=%s", n, prof)
 	taken := map[string]bool{}
-	for _, k := range keys {
+	longest, shortest, nonUTF8 := 0, 0, 0
+	lenCount := map[string]int{}
+	for i, k := range keys {
 		taken[k] = true
+		if len(k) > len(keys[longest]) {
+			longest = i
+		}
+		if len(k) < len(keys[shortest]) {
+			shortest = i
+		}
+		if !utf8.ValidString(k) {
+			nonUTF8++
+		}
+		lenCount[lenClassOf(len(k))]++
+	}
+	for cl, cnt := range lenCount {
+		r.Count("keys_of_length_class_"+cl, cnt)
+	}
+	r.Count("keys_not_valid_utf8", nonUTF8)
+	r.Count("trees_of_key_profile_"+prof, 1)
+	if len(lenCount) >= 3 {
+		r.Count("trees_mixing_3_or_more_key_length_classes", 1)
+	}
+	treeMax := len(keys[longest])
+	// longest key on the way from node i up to the root: the nodes whose hashes commit to node i
+	pathMax := func(i int) int {
+		m := len(keys[i])
+		for a := i; a > 0; {
+			a = refParent(a)
+			if len(keys[a]) > m {
+				m = len(keys[a])
+			}
+		}
+		return m
+	}
+
+	// one key change. site "" = next site of the rotation.
+	rotation := append(append([]string{}, mutSites...), "random")
+	siteNo := rng.Intn(len(rotation))
+	change := func(key, site string) (out, where string, ok bool) {
+		if site == "" {
+			site = rotation[siteNo%len(rotation)]
+			siteNo++
+		}
+		out, off, ok := mutateKeyAt(rng, key, site, taken)
+		if !ok && site != "random" {
+			site = "random"
+			out, off, ok = mutateKeyAt(rng, key, site, taken)
+		}
+		if !ok {
+			r.Count("key_changes_skipped_no_free_key", 1)
+			return "", "", false
+		}
+		r.Count("key_changes_at_"+site, 1)
+		r.Count("key_changes_of_"+lenBucket(len(key)), 1)
+		return out, fmt.Sprintf("%s@%d/%d", site, off, len(key)), true
+	}
+	sitesOf := func(key string, all bool) []string {
+		if all {
+			return sitesFor(len(key))
+		}
+		return []string{""}
 	}
 
 	tr, err := build(keys)
@@ -194,14 +266,14 @@ func (c *checker) checkTree(treeNo int, via string, keys []string, exhaustive bo
 	if err != nil {
 		w := base
 		w.Err = err.Error()
-		r.Violation("Writer.Tree:error-on-valid-keys", fmt.Sprintf("Writer.Tree() failed for %d distinct non-empty keys: %v", n, err), w)
+		r.Violation(c.maxSig("Writer.Tree:error-on-valid-keys", treeMax), fmt.Sprintf("Writer.Tree() failed for %d distinct non-empty keys: %v", n, err), w)
 		return
 	}
-	r.Case(fmt.Sprintf("built/n=%d/t=%d", n, treeNo))
+	r.Case(fmt.Sprintf("built/%s/t=%d", tp, treeNo))
 	if err := tr.IsValid(nil); err != nil {
 		w := base
 		w.Err = err.Error()
-		r.Violation("Tree.IsValid:rejects-writer-built-tree", fmt.Sprintf("tree of %d nodes built by Writer does not validate: %v", n, err), w)
+		r.Violation(c.maxSig("Tree.IsValid:rejects-writer-built-tree", treeMax), fmt.Sprintf("tree of %d nodes built by Writer does not validate: %v", n, err), w)
 		return
 	}
 	if tr.Len() != n {
@@ -209,16 +281,32 @@ func (c *checker) checkTree(treeNo int, via string, keys []string, exhaustive bo
 		return
 	}
 
-	// every node's hash matches its key and children (integer reference)
+	// every node's hash matches its key and children (integer reference);
+	// bottom-up, so the node reported is one whose children are right
 	ref := refHashes(keys)
-	for i := 0; i < n; i++ {
+	for i := n - 1; i >= 0; i-- {
 		nd := tr.Node(uint64(i))
 		if nd == nil || nd.Key() != keys[i] || nd.Hash() == nil || !nd.Hash().Equal(ref[i]) {
 			w := base
-			w.KeyIndex = i
-			r.Violation("Writer.Tree:node-hash-not-hash-of-key-and-children",
-				fmt.Sprintf("size %d node %d: hash %v, reference H(key|left|right) = %v", n, i, nd, ref[i]), w)
-			return
+			w.KeyIndex, w.Key, w.KeyLen = i, showKey(keys[i]), len(keys[i])
+			var got interface{} = "<nil node>"
+			if nd != nil {
+				got = nd.Hash()
+			}
+			nch := 0
+			for _, ch := range []int{2*i + 1, 2*i + 2} {
+				if ch < n {
+					nch++
+				}
+			}
+			r.Violation(c.keySig(fmt.Sprintf("Writer.Tree:node-hash-not-hash-of-key-and-children:%d-children", nch), len(keys[i])),
+				fmt.Sprintf("size %d node %d (key of %d bytes, %d children; the hashes of all nodes below it are right): hash %v, reference H(key|left|right) = %v", n, i, len(keys[i]), nch, got, ref[i]), w)
+			if nd == nil || nd.Key() != keys[i] || nd.Hash() == nil {
+				return
+			}
+			// the tree validates itself with hashes that are not the reference's: the
+			// mutation oracles below still judge it by what it accepts
+			break
 		}
 	}
 	r.Count("node_hashes_compared_with_reference", n)
@@ -227,6 +315,7 @@ func (c *checker) checkTree(treeNo int, via string, keys []string, exhaustive bo
 
 	// ---- proofs
 	var keyIdx []int
+	special := map[int]bool{} // sampled trees: the longest and the shortest key get every site
 	if exhaustive || nKeys >= n {
 		for i := 0; i < n; i++ {
 			keyIdx = append(keyIdx, i)
@@ -249,6 +338,9 @@ func (c *checker) checkTree(treeNo int, via string, keys []string, exhaustive bo
 			add(p - 1)
 			add(p)
 		}
+		add(longest)
+		add(shortest)
+		special[longest], special[shortest] = true, true
 		for len(keyIdx) < nKeys {
 			add(rng.Intn(n))
 		}
@@ -262,27 +354,34 @@ func (c *checker) checkTree(treeNo int, via string, keys []string, exhaustive bo
 
 	for _, ki := range keyIdx {
 		key := keys[ki]
+		kb := lenBucket(len(key))
 		w := base
-		w.KeyIndex, w.Key = ki, key
+		w.KeyIndex, w.Key, w.KeyLen = ki, showKey(key), len(key)
 		p, err := tr.Proof(key)
 		r.Count("proofs_extracted", 1)
 		if err != nil {
 			w.Err = err.Error()
-			r.Violation("Tree.Proof:fails-for-key-in-valid-tree", fmt.Sprintf("size %d key index %d: %v", n, ki, err), w)
+			r.Violation(c.keySig("Tree.Proof:fails-for-key-in-valid-tree", len(key)), fmt.Sprintf("size %d key index %d: %v", n, ki, err), w)
 			continue
 		}
 		pn := p.Nodes()
 		L := len(pn)
 		w.Proof = nodeStrings(pn)
-		r.Case(fmt.Sprintf("proof/n=%d/k=%d", n, ki))
+		proofMax := 0
+		for _, x := range pn {
+			if x != nil && !x.IsEmpty() && len(x.Key()) > proofMax {
+				proofMax = len(x.Key())
+			}
+		}
+		r.Case(fmt.Sprintf("proof/%s/k=%d/%s", tp, ki, kb))
 		if err := p.IsValid(nil); err != nil {
 			w.Err = err.Error()
-			r.Violation("Proof.IsValid:rejects-extracted-proof", fmt.Sprintf("size %d key index %d: %v", n, ki, err), w)
+			r.Violation(c.maxSig("Proof.IsValid:rejects-extracted-proof", proofMax), fmt.Sprintf("size %d key index %d: %v", n, ki, err), w)
 			continue
 		}
 		if err := p.Prove(key); err != nil {
 			w.Err = err.Error()
-			r.Violation("Proof.Prove:rejects-extracted-proof", fmt.Sprintf("size %d key index %d: %v", n, ki, err), w)
+			r.Violation(c.maxSig("Proof.Prove:rejects-extracted-proof", proofMax), fmt.Sprintf("size %d key index %d: %v", n, ki, err), w)
 			continue
 		}
 		if last := pn[L-1]; last == nil || last.Hash() == nil || !last.Hash().Equal(root) {
@@ -290,15 +389,16 @@ func (c *checker) checkTree(treeNo int, via string, keys []string, exhaustive bo
 			continue
 		}
 		r.Count("proofs_verified", 1)
+		r.Count("proofs_verified_of_"+kb, 1)
 		// the proof must be about this key: the proven node is in it with the tree's hash
-		found := false
-		for _, x := range pn {
-			if x != nil && !x.IsEmpty() && x.Key() == key && x.Hash().Equal(ref[ki]) {
-				found = true
+		provenPos := -1
+		for pos, x := range pn {
+			if x != nil && !x.IsEmpty() && x.Key() == key && x.Hash().Equal(nodes[ki].Hash()) {
+				provenPos = pos
 			}
 		}
-		if !found {
-			r.Violation("Proof:does-not-contain-proven-node", fmt.Sprintf("size %d key index %d", n, ki), w)
+		if provenPos < 0 {
+			r.Violation(c.keySig("Proof:does-not-contain-proven-node", len(key)), fmt.Sprintf("size %d key index %d", n, ki), w)
 			continue
 		}
 
@@ -308,16 +408,23 @@ func (c *checker) checkTree(treeNo int, via string, keys []string, exhaustive bo
 			ancestors[keys[a]] = true
 		}
 
-		tryMut := func(kind string, pos, pos2 int) {
+		tryMut := func(kind string, pos, pos2 int, site string) {
 			m := append([]fixedtree.Node{}, pn...)
-			var rl string
+			var rl, where string
+			sigLen, sigOfKey := proofMax, false
 			switch kind {
 			case "key":
 				if m[pos].IsEmpty() {
 					return
 				}
 				rl = role(pos, pn[pos], L, key, ancestors)
-				m[pos] = fixedtree.NewBaseNode(mutateKey(rng, m[pos].Key(), taken)).SetHash(m[pos].Hash())
+				nk, wh, ok := change(m[pos].Key(), site)
+				if !ok {
+					return
+				}
+				where = wh
+				sigLen, sigOfKey = len(m[pos].Key()), true
+				m[pos] = fixedtree.NewBaseNode(nk).SetHash(m[pos].Hash())
 			case "hash":
 				if m[pos].IsEmpty() {
 					return
@@ -345,16 +452,22 @@ func (c *checker) checkTree(treeNo int, via string, keys []string, exhaustive bo
 				}
 				m[pos], m[pos2] = m[pos2], m[pos]
 			}
-			r.Case(fmt.Sprintf("pm/n=%d/k=%d/%s/%d/%d", n, ki, kind, pos, pos2))
-			r.Count("proof_mutations_"+kind, 1)
 			ww := w
-			ww.Mutation, ww.Pos, ww.Pos2 = kind, pos, pos2
+			ww.Mutation, ww.Pos, ww.Pos2, ww.Site = kind, pos, pos2, where
 			ww.Mutated = nodeStrings(m)
-			sig := "Proof:accepts-mutated:" + kind + ":" + rl
+			var sig string
+			if sigOfKey {
+				sig = c.keySig("Proof:accepts-mutated:"+kind+":"+rl, sigLen)
+				r.Case(fmt.Sprintf("pm/%s/k=%d/%s/%d/%s", tp, ki, kind, pos, where))
+			} else {
+				sig = c.maxSig("Proof:accepts-mutated:"+kind+":"+rl, sigLen)
+				r.Case(fmt.Sprintf("pm/%s/k=%d/%s/%d/%d/max%s", tp, ki, kind, pos, pos2, lenBucket(proofMax)))
+			}
+			r.Count("proof_mutations_"+kind, 1)
 			r.Guard(sig, ww, func() {
 				if ok, _ := proofAccepted(fixedtree.NewProof(m), key, root); ok {
 					r.Violation(sig,
-						fmt.Sprintf("size %d, proof of key index %d (%q): %s mutation at proof position %d (%s) still passes IsValid, Prove(key) and carries the tree root", n, ki, key, kind, pos, rl), ww)
+						fmt.Sprintf("size %d, proof of key index %d (%s): %s mutation %s at proof position %d (%s) still passes IsValid, Prove(key) and carries the tree root", n, ki, showKey(key), kind, where, pos, rl), ww)
 				} else {
 					r.Count("proof_mutations_rejected", 1)
 				}
@@ -366,10 +479,12 @@ func (c *checker) checkTree(treeNo int, via string, keys []string, exhaustive bo
 		// it must not be accepted under the trusted root.
 		//   relabel         node at pos gets key K', keeps its hash (the other proof nodes stay)
 		//   fabricate-leaf  node at pos (also an empty one) replaced by (K', H(K'))
-		// drop > 0: the first drop pairs are cut off, so the node sits in a
-		// pair position the honest extraction never puts the proven key in
-		// (first pair, or a lone root) and its children are not in the proof.
-		tryForge := func(kind string, pos, drop int) {
+		// K' is the key of that node (of the proven node for an empty one)
+		// changed at one site. drop > 0: the first drop pairs are cut off, so
+		// the node sits in a pair position the honest extraction never puts the
+		// proven key in (first pair, or a lone root) and its children are not in
+		// the proof.
+		tryForge := func(kind string, pos, drop int, site string) {
 			if pos < 2*drop {
 				return
 			}
@@ -383,8 +498,8 @@ func (c *checker) checkTree(treeNo int, via string, keys []string, exhaustive bo
 			} else {
 				from = key
 			}
-			fake := mutateKey(rng, from, taken)
-			if taken[fake] {
+			fake, where, ok := change(from, site)
+			if !ok {
 				return
 			}
 			m := append([]fixedtree.Node{}, pn...)
@@ -399,27 +514,33 @@ func (c *checker) checkTree(treeNo int, via string, keys []string, exhaustive bo
 			if drop > 0 {
 				rl += ":leading-pairs-dropped"
 			}
-			r.Case(fmt.Sprintf("fg/n=%d/k=%d/%s/%d/%d", n, ki, kind, pos, drop))
+			r.Case(fmt.Sprintf("fg/%s/k=%d/%s/%d/%d/%s", tp, ki, kind, pos, drop, where))
 			r.Count("forged_proofs_"+kind, 1)
 			ww := w
-			ww.Mutation, ww.Pos, ww.Pos2 = "forge-"+kind+" claimed key "+fake, pos, drop
+			ww.Mutation, ww.Pos, ww.Pos2, ww.Site = "forge-"+kind+" claimed key "+showKey(fake), pos, drop, where
 			ww.Mutated = nodeStrings(m)
-			sig := "Proof:forged-membership:" + kind + ":" + rl
+			sig := c.keySig("Proof:forged-membership:"+kind+":"+rl, len(from))
 			r.Guard(sig, ww, func() {
 				if ok, _ := proofAccepted(fixedtree.NewProof(m), fake, root); ok {
 					r.Violation(sig,
-						fmt.Sprintf("size %d: key %q is in no node of the tree, but the proof of key index %d with position %d (%s) changed by %s and %d leading pairs dropped passes IsValid, Prove(%q) and carries the tree root", n, fake, ki, pos, rl, kind, drop, fake), ww)
+						fmt.Sprintf("size %d: key %s (a key of the tree changed at %s) is in no node of the tree, but the proof of key index %d with position %d (%s) changed by %s and %d leading pairs dropped passes IsValid, Prove of that key and carries the tree root", n, showKey(fake), where, ki, pos, rl, kind, drop), ww)
 				} else {
 					r.Count("forged_proofs_rejected", 1)
 				}
 			})
 		}
 
+		all := allSites || special[ki]
 		if exhaustive {
 			for pos := 0; pos < L; pos++ {
 				for drop := 0; 2*drop <= pos; drop++ {
-					tryForge("relabel", pos, drop)
-					tryForge("fabricate-leaf", pos, drop)
+					tryForge("relabel", pos, drop, "")
+					tryForge("fabricate-leaf", pos, drop, "")
+				}
+				if all && !pn[pos].IsEmpty() {
+					for _, s := range sitesFor(len(pn[pos].Key())) {
+						tryForge("relabel", pos, 0, s)
+					}
 				}
 			}
 		} else {
@@ -429,24 +550,38 @@ func (c *checker) checkTree(treeNo int, via string, keys []string, exhaustive bo
 				if rng.Intn(2) == 0 {
 					drop = rng.Intn(pos/2 + 1)
 				}
-				tryForge([]string{"relabel", "fabricate-leaf"}[rng.Intn(2)], pos, drop)
+				tryForge([]string{"relabel", "fabricate-leaf"}[rng.Intn(2)], pos, drop, "")
 			}
 			// always: the leaf-in-first-pair and lone-root shapes
-			tryForge("relabel", 0, 0)
-			tryForge("relabel", L-1, (L-1)/2)
+			tryForge("relabel", 0, 0, "")
+			tryForge("relabel", L-1, (L-1)/2, "")
 			if L >= 5 {
-				tryForge("relabel", 2, 1)
-				tryForge("relabel", 3, 1)
+				tryForge("relabel", 2, 1, "")
+				tryForge("relabel", 3, 1, "")
+			}
+			// always: the proven key itself changed in its last byte only;
+			// for the longest and the shortest key of the tree at every site
+			for _, s := range sitesOf(key, all) {
+				if s == "" {
+					s = "last"
+				}
+				tryForge("relabel", provenPos, 0, s)
 			}
 		}
 
 		if exhaustive {
 			for pos := 0; pos < L; pos++ {
-				tryMut("key", pos, 0)
-				tryMut("hash", pos, 0)
-				tryMut("emptiness", pos, 0)
+				if all && !pn[pos].IsEmpty() {
+					for _, s := range sitesFor(len(pn[pos].Key())) {
+						tryMut("key", pos, 0, s)
+					}
+				} else {
+					tryMut("key", pos, 0, "")
+				}
+				tryMut("hash", pos, 0, "")
+				tryMut("emptiness", pos, 0, "")
 				for pos2 := pos + 1; pos2 < L; pos2++ {
-					tryMut("swap", pos, pos2)
+					tryMut("swap", pos, pos2, "")
 				}
 			}
 		} else {
@@ -463,7 +598,12 @@ func (c *checker) checkTree(treeNo int, via string, keys []string, exhaustive bo
 						pos, pos2 = pos2, pos
 					}
 				}
-				tryMut(kind, pos, pos2)
+				tryMut(kind, pos, pos2, "")
+			}
+			// always: the last byte only of the root's key and of the proven key
+			tryMut("key", L-1, 0, "last")
+			if provenPos != L-1 {
+				tryMut("key", provenPos, 0, "last")
 			}
 		}
 	}
@@ -476,7 +616,7 @@ func (c *checker) checkTree(treeNo int, via string, keys []string, exhaustive bo
 		}
 	} else {
 		seen := map[int]bool{}
-		for _, i := range []int{0, 1, n - 1, refParent(n - 1)} {
+		for _, i := range []int{0, 1, n - 1, refParent(n - 1), longest, shortest} {
 			if i >= 0 && i < n && !seen[i] {
 				seen[i] = true
 				mutIdx = append(mutIdx, i)
@@ -500,20 +640,19 @@ func (c *checker) checkTree(treeNo int, via string, keys []string, exhaustive bo
 		default:
 			pl = "inner"
 		}
+		pm := pathMax(i)
 		w := base
-		w.KeyIndex, w.Key = i, keys[i]
-		for _, kind := range []string{"key", "hash"} {
+		w.KeyIndex, w.Key, w.KeyLen = i, showKey(keys[i]), len(keys[i])
+
+		// hash of node i changed
+		{
 			m := append([]fixedtree.Node{}, nodes...)
-			if kind == "key" {
-				m[i] = fixedtree.NewBaseNode(mutateKey(rng, keys[i], taken)).SetHash(nodes[i].Hash())
-			} else {
-				m[i] = fixedtree.NewBaseNode(keys[i]).SetHash(flipHash(rng, nodes[i].Hash()))
-			}
+			m[i] = fixedtree.NewBaseNode(keys[i]).SetHash(flipHash(rng, nodes[i].Hash()))
 			ww := w
-			ww.Mutation = "tree-" + kind
-			sig := "Tree.IsValid:accepts-mutated:" + kind + ":" + pl
-			r.Case(fmt.Sprintf("tm/n=%d/i=%d/%s", n, i, kind))
-			r.Count("tree_mutations_"+kind, 1)
+			ww.Mutation = "tree-hash"
+			sig := c.maxSig("Tree.IsValid:accepts-mutated:hash:"+pl, pm)
+			r.Case(fmt.Sprintf("tm/%s/i=%d/hash/max%s", tp, i, lenBucket(pm)))
+			r.Count("tree_mutations_hash", 1)
 			r.Guard(sig, ww, func() {
 				mt, err := fixedtree.NewTree(treeHint, m)
 				if err != nil {
@@ -521,34 +660,77 @@ func (c *checker) checkTree(treeNo int, via string, keys []string, exhaustive bo
 					return
 				}
 				if err := mt.IsValid(nil); err == nil {
-					r.Violation(sig, fmt.Sprintf("size %d: %s of node %d (%s) changed, Tree.IsValid still nil", n, kind, i, pl), ww)
+					r.Violation(sig, fmt.Sprintf("size %d: hash of node %d (%s) changed, Tree.IsValid still nil", n, i, pl), ww)
 				} else {
 					r.Count("tree_mutations_rejected", 1)
 				}
 			})
 		}
-		// root changes whenever a node's key changes (tree rebuilt by the Writer)
-		k2 := append([]string{}, keys...)
-		k2[i] = mutateKey(rng, keys[i], taken)
-		ww := w
-		ww.Mutation = "rebuild-with-key " + k2[i]
-		r.Case(fmt.Sprintf("rk/n=%d/i=%d", n, i))
-		r.Count("root_sensitivity_rebuilds", 1)
-		r.Guard("Root:rebuild", ww, func() {
-			t2, err := build(k2)
-			if err != nil {
-				ww.Err = err.Error()
-				r.Violation("Writer.Tree:error-on-valid-keys", fmt.Sprintf("rebuild failed: %v", err), ww)
-				return
+
+		// key of node i changed at one site: (a) in the valid tree, hash kept,
+		// judged by Tree.IsValid; (b) tree rebuilt by the Writer, judged by the root
+		sites := sitesOf(keys[i], allSites)
+		if special[i] && !allSites {
+			// sampled trees (every full-tree operation is O(n)): first, middle and last byte
+			sites = []string{"first", "mid", "last"}
+			if len(keys[i]) < 3 {
+				sites = []string{"last", ""}
 			}
-			if t2.Root().Equal(root) {
-				r.Violation("Root:unchanged-after-key-change:"+pl, fmt.Sprintf("size %d: key of node %d (%s) changed, root still %v", n, i, pl, root), ww)
+		}
+		for _, site := range sites {
+			nk, where, ok := change(keys[i], site)
+			if !ok {
+				continue
 			}
-		})
+			m := append([]fixedtree.Node{}, nodes...)
+			m[i] = fixedtree.NewBaseNode(nk).SetHash(nodes[i].Hash())
+			ww := w
+			ww.Mutation, ww.Site = "tree-key -> "+showKey(nk), where
+			sig := c.keySig("Tree.IsValid:accepts-mutated:key:"+pl, len(keys[i]))
+			r.Case(fmt.Sprintf("tm/%s/i=%d/key/%s", tp, i, where))
+			r.Count("tree_mutations_key", 1)
+			r.Guard(sig, ww, func() {
+				mt, err := fixedtree.NewTree(treeHint, m)
+				if err != nil {
+					r.Count("tree_mutations_rejected", 1)
+					return
+				}
+				if err := mt.IsValid(nil); err == nil {
+					r.Violation(sig, fmt.Sprintf("size %d: key of node %d (%s, %d bytes) changed at %s, hash kept, Tree.IsValid still nil", n, i, pl, len(keys[i]), where), ww)
+				} else {
+					r.Count("tree_mutations_rejected", 1)
+				}
+			})
+
+			k2 := append([]string{}, keys...)
+			k2[i] = nk
+			rw := w
+			rw.Mutation, rw.Site = "rebuild-with-key "+showKey(nk), where
+			r.Case(fmt.Sprintf("rk/%s/i=%d/%s/max%s", tp, i, where, lenBucket(pm)))
+			r.Count("root_sensitivity_rebuilds", 1)
+			r.Guard("Root:rebuild", rw, func() {
+				t2, err := build(k2)
+				if err != nil {
+					rw.Err = err.Error()
+					r.Violation(c.maxSig("Writer.Tree:error-on-valid-keys", treeMax), fmt.Sprintf("rebuild failed: %v", err), rw)
+					return
+				}
+				if t2.Root().Equal(root) {
+					r.Violation(c.maxSig("Root:unchanged-after-key-change:"+pl, pm),
+						fmt.Sprintf("size %d: key of node %d (%s, %d bytes) changed at %s, root still %v; the longest key on the way from that node to the root has %d bytes", n, i, pl, len(keys[i]), where, root, pm), rw)
+				}
+			})
+		}
 
 		// the same rebuild, but the Writer is fed nodes that already carry hashes:
 		// "from-tree" = the nodes of the valid tree with node i relabelled (its stale hash kept),
 		// "foreign"   = every node carries a hash that belongs to nothing.
+		nk, where, ok := change(keys[i], "")
+		if !ok {
+			continue
+		}
+		k2 := append([]string{}, keys...)
+		k2[i] = nk
 		ref2 := refHashes(k2)
 		for _, variant := range []string{"from-tree", "foreign"} {
 			src := make([]fixedtree.Node, n)
@@ -563,8 +745,8 @@ func (c *checker) checkTree(treeNo int, via string, keys []string, exhaustive bo
 				}
 			}
 			vw := w
-			vw.Mutation = "rebuild-" + variant + "-with-key " + k2[i]
-			r.Case(fmt.Sprintf("rh/n=%d/i=%d/%s", n, i, variant))
+			vw.Mutation, vw.Site = "rebuild-"+variant+"-with-key "+showKey(nk), where
+			r.Case(fmt.Sprintf("rh/%s/i=%d/%s/%s", tp, i, variant, where))
 			r.Count("rebuilds_from_hashed_nodes_"+variant, 1)
 			sigp := "Writer.rebuild-from-hashed-nodes:" + variant + ":"
 			r.Guard(sigp+"panic", vw, func() {
@@ -582,21 +764,21 @@ func (c *checker) checkTree(treeNo int, via string, keys []string, exhaustive bo
 				}
 				if err != nil {
 					vw.Err = err.Error()
-					r.Violation(sigp+"error", fmt.Sprintf("size %d: Writer failed on nodes that carry hashes: %v", n, err), vw)
+					r.Violation(c.maxSig(sigp+"error", treeMax), fmt.Sprintf("size %d: Writer failed on nodes that carry hashes: %v", n, err), vw)
 					return
 				}
 				if err := t2.IsValid(nil); err != nil {
 					vw.Err = err.Error()
-					r.Violation(sigp+"built-tree-invalid:"+pl, fmt.Sprintf("size %d: tree built by the Writer from hashed nodes (key of node %d, %s, changed) does not validate: %v", n, i, pl, err), vw)
+					r.Violation(c.maxSig(sigp+"built-tree-invalid:"+pl, pm), fmt.Sprintf("size %d: tree built by the Writer from hashed nodes (key of node %d, %s, changed at %s) does not validate: %v", n, i, pl, where, err), vw)
 					return
 				}
 				if t2.Root().Equal(root) {
-					r.Violation(sigp+"root-unchanged-after-key-change:"+pl, fmt.Sprintf("size %d: key of node %d (%s) changed, root still %v", n, i, pl, root), vw)
+					r.Violation(c.maxSig(sigp+"root-unchanged-after-key-change:"+pl, pm), fmt.Sprintf("size %d: key of node %d (%s, %d bytes) changed at %s, root still %v", n, i, pl, len(keys[i]), where, root), vw)
 					return
 				}
-				for j := 0; j < n; j++ {
+				for j := n - 1; j >= 0; j-- {
 					if nd := t2.Node(uint64(j)); nd == nil || nd.Key() != k2[j] || nd.Hash() == nil || !nd.Hash().Equal(ref2[j]) {
-						r.Violation(sigp+"node-hash-not-hash-of-key-and-children", fmt.Sprintf("size %d node %d after rebuild: %v, reference %v", n, j, nd, ref2[j]), vw)
+						r.Violation(c.keySig(sigp+"node-hash-not-hash-of-key-and-children", len(k2[j])), fmt.Sprintf("size %d node %d (key of %d bytes) after rebuild: node %v, reference %v", n, j, len(k2[j]), nd, ref2[j]), vw)
 						return
 					}
 				}
@@ -623,7 +805,7 @@ func (c *checker) checkTree(treeNo int, via string, keys []string, exhaustive bo
 					}
 					if err != nil {
 						vw.Err = err.Error()
-						r.Violation(sigp+"proof-of-key-fails-against-new-root", fmt.Sprintf("size %d: after rebuild with key of node %d changed, proof of key index %d: %v", n, i, j, err), vw)
+						r.Violation(c.keySig(sigp+"proof-of-key-fails-against-new-root", len(k2[j])), fmt.Sprintf("size %d: after rebuild with key of node %d changed, proof of key index %d: %v", n, i, j, err), vw)
 						return
 					}
 					r.Count("proofs_verified_after_rebuild", 1)
@@ -634,47 +816,37 @@ func (c *checker) checkTree(treeNo int, via string, keys []string, exhaustive bo
 	}
 }
 
-func genKeys(rng interface{ Intn(int) int }, n int) []string {
-	keys := make([]string, n)
-	style := rng.Intn(3)
-	for i := range keys {
-		var l int
-		switch style {
-		case 0:
-			l = 1 + rng.Intn(6) // short keys
-		case 1:
-			l = 32 + rng.Intn(16) // hash-string like
-		default:
-			l = 1 + rng.Intn(40)
-		}
-		b := make([]byte, l)
-		for j := range b {
-			b[j] = keyAlphabet[rng.Intn(len(keyAlphabet))]
-		}
-		// "#i" makes keys distinct (the tree's users key nodes by unique fact/state hashes)
-		keys[i] = fmt.Sprintf("%s#%d", b, i)
-	}
-	return keys
-}
-
 func TestC12(t *testing.T) {
 	r := vlib.Start(t, "C12", vlib.LevelExploration)
 	defer r.Finish()
-	r.SetRule("case = one oracle evaluation on a tree built by the real fixedtree.Writer from PRNG keys: tree built+validated+compared node by node with an integer reference (children 2i+1, 2i+2); one key's extracted proof (IsValid, Prove(key), last node == Tree.Root); one single mutation of that proof (key/hash/emptiness of one proof node, swap of two non-equal proof nodes) judged by IsValid && Prove(key) && root==tree root; one forged membership proof (a proof node relabelled to, or replaced by a self-consistent leaf of, a key K' that is in no tree node, optionally with leading pairs dropped so K' sits in the first pair or is a lone root) judged by IsValid && Prove(K') && root==tree root; one tree-node key/hash mutation judged by Tree.IsValid; one rebuild with one key changed judged by the root; the same rebuild with the Writer fed nodes that already carry hashes (nodes of the valid tree with one relabelled, or all with foreign hashes) judged by Tree.IsValid, the integer reference, new root != old root and the proofs of the changed/root/last (all, n<=24) keys against the new root. sizes 1..E exhaustive over every key, every proof position and every tree node; larger sizes sampled (all 2^k-1, 2^k, 2^k+1 included). distinct = (size, key index, mutation kind, positions)")
-	r.Assume("keys within one tree are distinct and non-empty (users key nodes by unique hashes)")
+	r.SetRule("case = one oracle evaluation on a tree built by the real fixedtree.Writer from PRNG keys: tree built+validated+compared node by node with an integer reference (children 2i+1, 2i+2); one key's extracted proof (IsValid, Prove(key), last node == Tree.Root); one single mutation of that proof (key/hash/emptiness of one proof node, swap of two non-equal proof nodes) judged by IsValid && Prove(key) && root==tree root; one forged membership proof (a proof node relabelled to, or replaced by a self-consistent leaf of, a key K' that is in no tree node, optionally with leading pairs dropped so K' sits in the first pair or is a lone root) judged by IsValid && Prove(K') && root==tree root; one tree-node key/hash mutation judged by Tree.IsValid; one rebuild with one key changed judged by the root; the same rebuild with the Writer fed nodes that already carry hashes (nodes of the valid tree with one relabelled, or all with foreign hashes) judged by Tree.IsValid, the integer reference, new root != old root and the proofs of the changed/root/last (all, n<=24) keys against the new root. " +
+		"KEYS: every tree has a key profile kp: text-short#i / text-hashlike#i / text-1..40#i (random text + '#index'), len-1..65, len-95..257, len-all (key lengths 1, 2..8, 31/32/33, 63/64/65, 95/96/97, 127/128/129, 255/256/257, 1000, 5000 bytes dealt from a shuffled deck, so lengths are mixed within one tree), len-all-binary (the same with arbitrary bytes: NUL, 0xff, invalid UTF-8), prefix-last / prefix-middle (1..3 groups of keys of 33..1000 bytes with nested common prefixes that differ only in their last / only in middle byte(s)), suffix-chain (a key = its parent's or another node's key + a suffix of 1..129 bytes). " +
+		"KEY CHANGES: every changed key (tree-node key mutation, rebuild, proof-node key mutation, forged key K') is an existing key changed at ONE site: one byte (one bit flipped or another byte) at offset first / 25% / 50% / 75% / last / random, one byte appended, or the last byte cut off; never a key of the tree. In key-class trees (via=key-classes) every site is tried for every node and every proof position; in every sampled tree the longest and the shortest key are always among the proven and the mutated ones (every site for the forged proven key, first/middle/last byte for the tree-node key mutation and the rebuild) and every proven key and every proof's root key is also changed in its last byte only; elsewhere the sites rotate from one key change to the next." +
+		"sizes 1..E exhaustive over every key, every proof position and every tree node (half of them with a text-*#i profile, half with a key-class profile); every key-class profile additionally on a fixed list of small sizes, exhaustive with every site; larger sizes sampled (all 2^k-1, 2^k, 2^k+1 included), profile drawn per tree. distinct = (size, key profile, key index, mutation kind, positions, site@offset/keylen). Signatures end in the length class of the changed key (keylen<32|<64|<128|<256|>=256) or of the longest key among the nodes that commit to the changed field (maxkeylen...).")
+	r.Assume("keys within one tree are distinct and non-empty (users key nodes by unique hashes); any byte string of length >= 1 is a legal key")
 	r.Assume("a mutated proof counts as rejected if Proof.IsValid fails, Prove(key) fails, or its last node's hash differs from the trusted tree root")
 	c := &checker{r: r}
 
 	type job struct {
 		no         int
 		via        string
+		prof       string
 		size       int
 		exhaustive bool
+		allSites   bool
 	}
 	var jobs []job
+	prng := r.Rand(12, 2)
+	// half of the trees keep the text+'#index' keys, half get a key-class profile
+	drawProfile := func() string {
+		if prng.Intn(2) == 0 {
+			return legacyProfiles[prng.Intn(len(legacyProfiles))]
+		}
+		return classProfiles[prng.Intn(len(classProfiles))]
+	}
 	E := 64
 	for n := 1; n <= E; n++ {
-		jobs = append(jobs, job{len(jobs), "exhaustive-small", n, true})
+		jobs = append(jobs, job{len(jobs), "exhaustive-small", drawProfile(), n, true, false})
 	}
 	r.Set("exhaustive_sizes", fmt.Sprintf("1..%d", E))
 	// boundary sizes
@@ -705,31 +877,63 @@ func TestC12(t *testing.T) {
 		// beyond the stated 2000-node bound, informative for the float level arithmetic
 		sizes = append(sizes, 4095, 4096, 4097, 65535, 65536, 65537, 100003)
 	}
+	nFirstLarge := len(jobs)
 	for _, s := range sizes {
-		jobs = append(jobs, job{len(jobs), "sampled-large", s, false})
+		prof := drawProfile()
+		if s > 2000 && prof != profLenLow {
+			prof = legacyProfiles[prng.Intn(len(legacyProfiles))] // keeps the >2000-node extras small in memory
+		}
+		jobs = append(jobs, job{len(jobs), "sampled-large", prof, s, false, false})
 	}
 	r.Set("large_tree_sizes", len(sizes))
 	r.Set("boundary_sizes", bsizes)
+	// every key-class profile on small trees: exhaustive over keys, positions,
+	// nodes AND sites of every key change
+	kcSizes := []int{1, 2, 3, 4, 5, 7, 8, 11, 16}
+	if r.Thorough() {
+		kcSizes = []int{1, 2, 3, 4, 5, 6, 7, 8, 9, 10, 11, 12, 15, 16, 17, 21, 31, 32, 33, 47}
+	}
+	nFirstKC := len(jobs)
+	for _, prof := range classProfiles {
+		for _, s := range kcSizes {
+			jobs = append(jobs, job{len(jobs), "key-classes", prof, s, true, true})
+		}
+	}
+	r.Set("key_class_profiles", classProfiles)
+	r.Set("key_class_sizes_exhaustive_with_every_site", kcSizes)
 
 	samples := make([]treeCase, len(jobs))
 	vlib.Parallel(len(jobs), 16, func(i int) {
 		j := jobs[i]
-		keys := genKeys(r.Rand(12, 1, j.no, j.size), j.size)
-		tc := treeCase{Size: j.size, Via: j.via, TreeNo: j.no, FirstKey: keys[0]}
+		keys := genKeys(r.Rand(12, 1, j.no, j.size), j.size, j.prof)
+		minL, maxL := len(keys[0]), len(keys[0])
+		for _, k := range keys {
+			if len(k) < minL {
+				minL = len(k)
+			}
+			if len(k) > maxL {
+				maxL = len(k)
+			}
+		}
+		tc := treeCase{Size: j.size, Via: j.via, Profile: j.prof, TreeNo: j.no, FirstKey: showKey(keys[0]), MinKeyLen: minL, MaxKeyLen: maxL}
 		r.Guard("checkTree", tc, func() {
-			c.checkTree(j.no, j.via, keys, j.exhaustive, 64, 256)
+			c.checkTree(j.no, j.via, j.prof, keys, j.exhaustive, j.allSites, 64, 256)
 		})
 		if tr, err := build(keys); err == nil {
 			tc.Root = tr.Root().String()
 		}
 		samples[i] = tc
 	})
-	for _, i := range []int{0, 2, 33, E - 1, E, len(jobs) - 1} {
+	for _, i := range []int{2, E - 1, nFirstLarge, nFirstKC + 4, nFirstKC + 3*len(kcSizes) + 6, len(jobs) - 1} {
 		if i < len(samples) {
 			r.Sample(samples[i])
 		}
 	}
 	if r.Counter("proofs_verified") == 0 || r.Counter("proof_mutations_rejected") == 0 || r.Counter("tree_mutations_rejected") == 0 || r.Counter("forged_proofs_rejected") == 0 || r.Counter("rebuilds_from_hashed_nodes_ok") == 0 {
 		r.Inconclusive("no proof verified or no mutation judged")
+	}
+	// the key dimension must have been driven: long keys, last-byte-only changes
+	if r.Counter("key_changes_at_last") == 0 || r.Counter("key_changes_of_keylen>=256") == 0 || r.Counter("keys_of_length_class_5000") == 0 || r.Counter("keys_not_valid_utf8") == 0 {
+		r.Inconclusive("key classes not driven: no last-byte change, no key of >=256 bytes changed, no 5000-byte key or no non-UTF-8 key")
 	}
 }
